@@ -19,11 +19,11 @@ use serde_json::json;
 pub const SPEC15: PropSpec = PropSpec {
 	id: "C15",
 	level: "fault_enumeration",
-	rule: "case = history of up to 40 writer calls over {serialize ok, serialize failing inside the value at a random depth (after bytes were emitted), serialize_all with a failing element in the middle, push_serialized, finish_block, inner()/inner_mut() inspection} ending with into_inner or drop, x approx_block_size in {0,1,small,default,large} x 6 codecs; the sink is a shared buffer inspected after EVERY call (= every point at which the process could stop): it must parse as a complete container file under the reference parser and decode to a prefix (in order) of the successfully serialized values; after finish_block / into_inner / drop to exactly all of them; failed values contribute nothing; conservation invariant through hook H4: ok_values == values_in_sink + n_elements_in_block. distinct by hash(schema shape, history kinds, final file)",
+	rule: "case = history of up to 40 writer calls over {serialize ok, serialize failing inside the value at a random depth (after bytes were emitted), serialize_all with a failing element in the middle, push_serialized, finish_block, inner()/inner_mut() inspection} ending with into_inner or drop, x approx_block_size in {0,1,small,default,large} x 6 codecs; the sink is a shared buffer (in half of the histories one that accepts only 1..40 bytes per write call, with or without its own write_vectored) inspected after EVERY call (= every point at which the process could stop): it must parse as a complete container file under the reference parser and decode to a prefix (in order) of the successfully serialized values; after finish_block / into_inner / drop to exactly all of them; failed values contribute nothing; conservation invariant through hook H4: ok_values == values_in_sink + n_elements_in_block. distinct by hash(schema shape, history kinds, final file)",
 	assumptions: &["the sync marker is fixed; which block boundaries the writer chooses is free"],
 	cases: (50_000_000, 4_000_000_000),
 	secs: (30, 900),
-	required: &["quiescent_points_checked", "failed_values_in_history", "failure_as_first_value_of_block", "histories_ended_by_drop", "histories_ended_by_into_inner", "conservation_checked"],
+	required: &["quiescent_points_checked", "histories_on_short_writing_sink", "failed_values_in_history", "failure_as_first_value_of_block", "histories_ended_by_drop", "histories_ended_by_into_inner", "conservation_checked"],
 	run_case: run_case15,
 	once: None,
 	panics_are_violations: true,
@@ -66,7 +66,7 @@ fn check_sink(
 	when: &str,
 	describe: &dyn Fn(serde_json::Value) -> serde_json::Value,
 ) -> bool {
-	let bytes = sink.0.borrow().clone();
+	let bytes = sink.buf.borrow().clone();
 	ctx.count("quiescent_points_checked");
 	let ocf = match container::parse(&bytes) {
 		Ok(o) => o,
@@ -140,7 +140,18 @@ pub fn run_case15(ctx: &mut Ctx, case_seed: u64) {
 	};
 	let mut wc = pick_write_cfg(&mut rng);
 	wc.approx_block_size = *rng.pick(&[Some(0), Some(1), Some(20), Some(60), Some(200), None, Some(1_000_000)]);
-	let sink = SharedSink::default();
+	// half of the histories go to a sink that takes only part of what it is offered (pipe / socket behaviour)
+	let sink = if rng.coin() {
+		SharedSink::default()
+	} else {
+		ctx.count("histories_on_short_writing_sink");
+		let sched: Vec<usize> = match rng.below(4) {
+			0 => vec![1],
+			1 => vec![*rng.pick(&[2usize, 3, 5, 17])],
+			_ => (0..1 + rng.below(8)).map(|_| 1 + rng.below(40)).collect(),
+		};
+		SharedSink::scheduled(sched, rng.coin())
+	};
 	let mut scfg = SerializerConfig::new(&schema);
 	let pres = Pres::canonical();
 	let mut hist: Vec<String> = Vec::new();
@@ -271,8 +282,8 @@ pub fn run_case15(ctx: &mut Ctx, case_seed: u64) {
 				must_all = true;
 			}
 			_ => {
-				let l1 = w.inner().0.borrow().len();
-				let l2 = w.inner_mut().0.borrow().len();
+				let l1 = w.inner().buf.borrow().len();
+				let l2 = w.inner_mut().buf.borrow().len();
 				when = format!("inner()/inner_mut() inspection ({l1}, {l2})");
 			}
 		}
@@ -308,7 +319,7 @@ pub fn run_case15(ctx: &mut Ctx, case_seed: u64) {
 	}
 	let _ = failed_any;
 	let kinds: String = hist.iter().map(|h| h.chars().next().unwrap_or('?')).collect();
-	let fin = sink.0.borrow();
+	let fin = sink.buf.borrow();
 	ctx.distinct_bytes(&[&shape_hash(&rs).to_le_bytes(), kinds.as_bytes(), &crate::rng::fnv(&fin).to_le_bytes()]);
 	ctx.sample(|| json!({"schema": rs.spell(None).compact(), "writer": wcd, "history": hist, "final_file_len": fin.len(), "values": ok_vals.len()}));
 }
